@@ -171,13 +171,12 @@ func (fan *HwMonFan) SetPwmEnabled(value ControlMode) (err error) {
 	err = util.WriteIntToFile(int(value), fan.Config.HwMon.PwmEnablePath)
 	if err == nil {
 		currentValue, err := fan.GetPwmEnabled()
-		if err != nil {
-			if errors.Is(err, os.ErrPermission) {
-				ui.Warning("Cannot read pwm_enable of fan '%s', pwm_enable state validation cannot work. Continuing assuming it worked.", fan.GetId())
-				return nil
-			} else if ControlMode(currentValue) != value {
-				return fmt.Errorf("PWM mode stuck to %d", currentValue)
-			}
+		if err != nil && errors.Is(err, os.ErrPermission) {
+			ui.Warning("Cannot read pwm_enable of fan '%s', pwm_enable state validation cannot work. Continuing assuming it worked.", fan.GetId())
+			return nil
+		}
+		if ControlMode(currentValue) != value {
+			return fmt.Errorf("PWM mode stuck to %d", currentValue)
 		}
 	}
 	return err
